@@ -247,6 +247,12 @@ package chainntnfs
 //@   site call dispatchConfDetails: domain 1 <= arg(ntfn).NumConfirmations && arg(ntfn).NumConfirmations <= n.reorgSafetyLimit &&
 //@        n.currentHeight + n.reorgSafetyLimit <= 4294967295 && (arg(details) != nil ==> arg(details).BlockHeight <= n.currentHeight)
 //@   site call dispatchConfDetails as rescan-done: assert confSet.rescanStatus == rescanComplete
+//@   // each client of the request is served the cached details the way IT asked for them (finding F41): with the block exactly when that
+//@   // client's own option says so - never by the option of the client that is registering
+//@   site call dispatchConfDetails as block-per-client: assert arg(details) != nil ==> confSet.details != nil &&
+//@        ((arg(details).Block == nil) == (!arg(ntfn).includeBlock || confSet.details.Block == nil)) &&
+//@        arg(details).BlockHeight == confSet.details.BlockHeight && arg(details).BlockHash == confSet.details.BlockHash &&
+//@        arg(details).TxIndex == confSet.details.TxIndex && arg(details).Tx == confSet.details.Tx
 //@
 //@ func (n *TxNotifier) newSpendNtfn
 //@   props C14
